@@ -246,6 +246,18 @@ TransferWithinRejected(d, r, p) ==
     /\ p \in Desc(r)
     /\ UNCHANGED vars
 
+\* Calls outside the documented preconditions that the documentation promises to refuse with a panic and that
+\* are refused before anything is touched: the root (for a rootless DOM: Ref::none()) cannot be destroyed or moved,
+\* an instance the DOM does not hold cannot be destroyed, moved, cloned or walked from.
+RootKinds    == {"destroy_root", "transfer_root", "transfer_within_root"}
+MissingKinds == {"destroy_missing", "transfer_within_missing", "descendants_of_missing", "clone_missing"}
+BadCall(kind, d, r) ==
+    /\ root[d] # Null
+    /\ kind \in RootKinds \cup MissingKinds
+    /\ kind \in RootKinds => r = (IF root[d] \in Refs THEN root[d] ELSE Null)
+    /\ kind \in MissingKinds => (r \in Refs /\ owner[r] # d)
+    /\ UNCHANGED vars
+
 -----------------------------------------------------------------------------
 (* clone_within / clone_into_external / clone_multiple_into_external         *)
 (* rs: sequence of subtree roots in DOM d; e: destination DOM (e = d for     *)
